@@ -47,7 +47,9 @@ def encOutcome : Outcome → String
   | .stalled => "stalled"
 
 def encResult (r : Result) : String :=
-  encOutcome r.outcome ++ " | " ++ toString r.consumed ++ " " ++ encBool r.closed ++ " | "
+  -- after an error the stream is closed; how much of the buffer asyncio dropped with an
+  -- over-long line depends on timing and is not part of any observation
+  encOutcome r.outcome ++ " | " ++ (match r.outcome with | .exc _ => "-" | _ => toString r.consumed) ++ " " ++ encBool r.closed ++ " | "
     ++ encList r.notified ++ " | " ++ (if r.calls.isEmpty then "~" else ",".intercalate (r.calls.map encCall))
 
 def decExchange? : List String → Option (ReqInfo × List Nat × Wire × DecLog)
@@ -136,6 +138,14 @@ def handle : List String → String
       | some f => (match readStrategy f with | .chunked => "chunked" | .length => "length" | .close => "close")
       | none => "VE"
     | none => "bad-arg"
+  | ["request", m, pth, v, fl] =>
+    match decList? m, decList? pth, decList? v, decLists? fl with
+    | some m, some pth, some v, some fl =>
+      let rec pairs : List (List Nat) → List (Str × Str)
+        | a :: b :: t => (a, b) :: pairs t
+        | _ => []
+      encList (requestBytes m pth v (pairs fl))
+    | _, _, _, _ => "bad-arg"
   | ["sr", ops] => match decOps? ops with | some ops => runSR ops | none => "bad-arg"
   | _ => "bad-op"
 
